@@ -75,16 +75,7 @@ Print Assumptions C29_scores_bounded.
 
 Theorem C29_bounded_is_finite : forall W, 1 <= W <= inject_Z (2 ^ 960) -> file_bound W < inject_Z (2 ^ 1023).
 Proof.
-  intros W [H1 H2]. unfold file_bound, base_bound.
-  unfold c_ScoreOffset, c_scoreFactorAtomMatch, c_scoreWordMatch, c_scoreSymbol, c_maxKindFactor, c_scoreKindMatch,
-    c_scoreRepoRankFactor, c_scoreFileOrderFactor.
-  assert (B : W <= inject_Z (2 ^ 960)) by exact H2. clear H2.
-  apply Qle_lt_trans with (10000000 * (400 + (500 + 7000 + 10 * 100) * inject_Z (2 ^ 960)) + 100 * 65535 + 10).
-  - assert (M : (500 + 7000 + 10 * 100) * W <= (500 + 7000 + 10 * 100) * inject_Z (2 ^ 960)).
-    { apply Qmult_le_l; [reflexivity | exact B]. }
-    set (a := (500 + 7000 + 10 * 100) * W) in *. set (b := (500 + 7000 + 10 * 100) * inject_Z (2 ^ 960)) in *.
-    clearbody a b. Lqa.lra.
-  - vm_compute. reflexivity.
+  intros W [_ H2]. eapply Qle_lt_trans; [apply file_bound_mono; exact H2|]. vm_compute. reflexivity.
 Qed.
 Print Assumptions C29_bounded_is_finite.
 
